@@ -226,19 +226,8 @@ theorem val_flat (x : Val) : x.toTree.flat = x.wrap := by
 theorem valOf_wrap (v : List Sc) : (valOf v).wrap = v := by
   unfold valOf; split <;> rfl
 
-theorem shapeList_leaf (l : List Sc) : shapeList (l.map Tree.leaf) = .ok [l.length] := by
-  induction l with
-  | nil => rfl
-  | cons x r ih =>
-    simp only [List.map_cons, shapeList, Tree.shape, ih, bind, Except.bind]
-    cases r with
-    | nil => rfl
-    | cons y r' => simp
-
-theorem val_npSize (x : Val) : x.toTree.npSize = .ok x.wrap.length := by
-  cases x with
-  | sc s => rfl
-  | list l => simp [Val.toTree, Tree.npSize, Tree.shape, shapeList_leaf, Except.map, prodL, Val.wrap]
+theorem val_flatSize (x : Val) : x.toTree.flatSize = x.wrap.length := by
+  rw [Tree.flatSize, val_flat]
 
 def AtomValid (a : Atom) : Prop := validateK a.kind a.d = .ok a.d
 
@@ -304,7 +293,7 @@ theorem atom_setOne_spec (name : String) (a : Atom) (hv : AtomValid a) (hk : a.k
         obtain ⟨p', l', hp', hl', hlen⟩ := valid_lam_len a hv hk
         rw [h4] at hp'; cases hp'
         have : v.length = p.wrap.length := by
-          simp only [Atom.arity, attr, hl', bind, Except.bind, val_npSize, Except.ok.injEq] at har
+          simp only [Atom.arity, attr, hl', bind, Except.bind, val_flatSize, Except.ok.injEq] at har
           omega
         simp [val_flat, wrap_list, valOf_wrap, broadcastLam_of_length _ _ this]
       · by_cases hn3 : name = "penalties"
